@@ -437,4 +437,57 @@ theorem classify_obj (P : Proto) (kvs : List (Str × J)) :
     · simp only [if_true, classify_v2_request .auto (Or.inr rfl), classify, classifyV2, hmm]
       cases (shapeOf kvs).id <;> cases (shapeOf kvs).jsonrpc20 <;> rfl
 
+/-- **Every** payload is classified exactly as the specification table says (`Classify.lean`):
+the outcome is an item of the stated kind or a `ProtocolError` with the documented code; it
+depends only on which of {jsonrpc, method, params, id, result, error} are present and on the
+kinds of their values. -/
+theorem classification_total_core (P : Proto) (p : J) :
+    outClass (payloadToItem P p) = classify P (topOf p) := by
+  cases p with
+  | obj kvs => exact classify_obj P kvs
+  | arr xs =>
+    cases xs with
+    | nil => cases P <;> rfl
+    | cons x xs => cases P <;> rfl
+  | null | bool _ | int _ | float _ | str _ => cases P <;> rfl
+
+/-- an item class, or a `ProtocolError` with one of the three documented codes -/
+def okClass (c : OutClass) : Bool :=
+  c matches .request | .notification | .result | .rpcError | .batch ||
+  c == .err INVALID_REQUEST || c == .err METHOD_NOT_FOUND || c == .err INVALID_ARGS
+
+theorem tail_ok (s : Shape) : okClass (classifyRequestTail s) = true := by
+  unfold classifyRequestTail; split <;> decide
+
+/-- the codes of the table are the documented ones -/
+theorem classify_codes_core (P : Proto) (t : TopK) : okClass (classify P t) = true := by
+  cases t with
+  | object s =>
+    cases P <;> simp only [classify, classifyV1, classifyV2, classifyLoose] <;>
+      (repeat' split) <;> first | exact tail_ok _ | decide
+  | emptyArray | array | other => cases P <;> decide
+
+/-- hence: decoding a payload never raises anything but a `ProtocolError`, and its code is one
+of INVALID_REQUEST / METHOD_NOT_FOUND / INVALID_ARGS -/
+theorem decode_only_protocol_errors_core (P : Proto) (p : J) :
+    (∃ x, payloadToItem P p = .ok x) ∨
+    (∃ e, payloadToItem P p = .error (.proto e)
+      ∧ (e.code = INVALID_REQUEST ∨ e.code = METHOD_NOT_FOUND ∨ e.code = INVALID_ARGS)) := by
+  have h1 := classification_total_core P p
+  have h2 := classify_codes_core P (topOf p)
+  rw [← h1] at h2
+  rcases hres : payloadToItem P p with (e | e) | x
+  · right
+    refine ⟨e, rfl, ?_⟩
+    rw [hres] at h2
+    have h3 : (e.code = INVALID_REQUEST ∨ e.code = METHOD_NOT_FOUND) ∨ e.code = INVALID_ARGS := by
+      simpa [outClass, okClass] using h2
+    rcases h3 with (h | h) | h
+    · exact Or.inl h
+    · exact Or.inr (Or.inl h)
+    · exact Or.inr (Or.inr h)
+  · rw [hres] at h2
+    simp [outClass, okClass] at h2
+  · exact Or.inl ⟨x, rfl⟩
+
 end Aiorpcx.C04
